@@ -326,3 +326,33 @@ def t_reserve_totals(world):
 _t_rt = tasks
 def tasks(tier):
     return _t_rt(tier) + [('reserve_totals', t_reserve_totals)]
+
+
+def t_solend_total(world):
+    eng = world.engine(primary='solend', extra=('typecrate',), opaque=[r'(^|::)decimal_to_i80f48$'])
+    f = world.fn(r'::calculate_total_liquidity$', 'solend')
+    a = eng.ex.fresh(f.params[0][1], 'rsv')
+    res = eng.run_fn(f, [a])
+    ob = Ob('C20.b.solend-total-liquidity', 'Solend reserve: total liquidity == available + borrowed - accumulated protocol fees, the two WAD fields decoded from their own bytes, decoder errors propagated',
+            [f.name], 'loop-free; decimal_to_i80f48 opaque (decided in C20.b); results below 2^100 (no i128 wrap)'); ob.paths = len(res)
+    R = STRUCTS['SolendMinimalReserve']
+    for r, okc in ok_paths(res):
+        if ob.witness(eng, r, [okc]) is False: continue
+        dc = [e for e in flat_events(r['events']) if e[0] == 'call' and re.search(r'decimal_to_i80f48$', e[1])]
+        if len(dc) != 2: ob.structural(f'{len(dc)} decoder calls', 'total-liquidity-terms'); continue
+        src = [getattr(eng.deref_val(e[2][0]), 'name', '?') for e in dc]
+        ob.queries += 1
+        want = [f'rsv*.{R.index("liquidity_borrowed_amount_wads")}', f'rsv*.{R.index("liquidity_accumulated_protocol_fees_wads")}']
+        if src == want: ob.unsat += 1
+        else: ob.sat += 1; ob.cex.append({'ob': ob.oid, 'label': f'decoded fields are {src} (expected borrowed, then protocol fees: {want})', 'role': 'total-liquidity-terms', 'model': {}, 'replay': None}); continue
+        b, fe = dc[0][3].payload[0][0].e, dc[1][3].payload[0][0].e
+        dom = [b >= 0, b < (1 << 100) * W, fe >= 0, fe < (1 << 100) * W]
+        ob.prove(eng, r, [okc] + dom, z3.And(zint(dc[0][3].disc) == 0, zint(dc[1][3].disc) == 0, r['ret'].payload[0][0].e == fsym('rsv*', 'SolendMinimalReserve', 'liquidity_available_amount') * W + b - fe),
+                 'total == available + borrowed - fees; decoder errors propagated', role='total-liquidity-terms')
+    ob.need_witness()
+    return [ob]
+
+
+_t_st = tasks
+def tasks(tier):
+    return _t_st(tier) + [('solend_total', t_solend_total)]
